@@ -1000,7 +1000,7 @@ def run(ctx):
                 check_sensor_table(ctx, dict(cb=cb, chain=chain, view='capture', keys=[[spec[k] + 'foo', True] for k in order]))
                 npairs += 1
     ctx.extra['namespace_pairs_x_namings_x_orders'] = npairs
-    for _ in range(ctx.scale(150, 1500)):
+    for _ in range(ctx.scale(250, 2500)):
         check_sensor_table(ctx, gen_sensor_case(rng))
     for _ in range(ctx.scale(40, 400)):
         cb, chain = rng.choice(NAMINGS)
@@ -1017,7 +1017,7 @@ def run(ctx):
             check_ids(ctx, x, st_vals, dict(how=how, form='path', url_query={}, keywords={}))
             check_ids(ctx, x, st_vals, dict(how=how, form='path', url_query={'capture_block_id': 'cbU', 'stream_name': 'alt_l0'},
                                             keywords={'capture_block_id': 'cbK'}))
-        for _ in range(ctx.scale(90, 900)):
+        for _ in range(ctx.scale(120, 1200)):
             check_ids(ctx, x, st_vals)
         for kind in UNREADABLE:
             for how in ENTRY:
@@ -1027,7 +1027,7 @@ def run(ctx):
     finally:
         v4.cleanup(x)
     # flag streams x every way of opening: two fixtures opened in ALL ways, the others in a sample of ways
-    for k in range(ctx.scale(30, 300)):
+    for k in range(ctx.scale(40, 400)):
         check_flag_streams(ctx, n_modes=None if k < 2 else 6)
     # a longer flag stream opened as metadata only / with data, deterministic (the shape of seeded change C18-2)
     fixed = dict(T=3, F=4, candidates=[dict(name='fl0', T=5, F=4, type='sdp.flags', src=['sdp_l0'])])
